@@ -172,15 +172,23 @@ func c14ToolCalls(extraFrag bool) {
 		for j := 0; j < nf; j++ {
 			a := vsymStr("a")
 			idMax := 2
-			if (vtier() == 0 || extraFrag) && i != 1 {
-				idMax = 1 // the four-fragment family keeps the smaller id range in both tiers (it does not finish otherwise)
+			if vtier() == 0 && i != 1 {
+				idMax = 1
+			}
+			if extraFrag {
+				// the four-fragment family keeps smaller ranges in both tiers: with the ranges of the three-fragment family
+				// it passed 1.0-1.1 M paths without finishing in 2400 s (twice); the id ranges are covered there
+				idMax = 1
+				if i == 2 {
+					idMax = 0
+				}
 			}
 			tc := ToolCall{ID: c14Small[vrange("id", 0, idMax)], Function: FunctionCall{Arguments: a}}
 			if i == 0 && j == 0 {
 				tc.Function.Name = c14Small[vrange("fname", 0, 1)]
 			}
 			if i == 1 && extraFrag {
-				tc.Function.Name = c14Small[vrange("fname", 0, 2)]
+				tc.Function.Name = c14Small[vrange("fname", 0, 1)]
 			}
 			ix := vrange("idx", -1, 1)
 			if ix >= 0 {
